@@ -48,7 +48,21 @@ def main():
 
     if args.replay:
         payload = json.load(open(args.replay))
-        return mod.replay(ctx, payload) if hasattr(mod, 'replay') else generic_replay(mod, ctx, payload)
+        payload['_path'] = args.replay
+        if hasattr(mod, 'replay'):
+            return mod.replay(ctx, payload)
+        if hasattr(mod, 'replay_case') and payload.get('kind') == 'failing-input':
+            return generic_replay(mod, ctx, payload)
+        # deterministic re-run: every random choice of a check derives from (VERIF_SEED, property), so running the same tier with the
+        # recorded seed regenerates the recorded case; the replay holds iff the recorded clause (or the recorded broken obligation)
+        # no longer fails on the current tree
+        seed = int(payload.get('seed', seed))
+        args.tier = payload.get('tier', args.tier)
+        os.environ['VERIF_SEED'] = str(seed)
+        ctx = Ctx(prop, args.tier, seed)
+        print(f"replay of {args.replay}: re-running {prop} tier={args.tier} seed={seed} "
+              f"(recorded: {payload.get('kind')} {payload.get('clause', '')})")
+        args.replay = None
 
     # ---- steps 0-3: translate, build, audit
     if args.no_build:
